@@ -208,6 +208,71 @@ func c19RootIdent(e ast.Expr) (id *ast.Ident, sel *ast.SelectorExpr, indexed boo
 	}
 }
 
+// c19VarKind classifies a package-level variable by its declaration: "ref" (something can be stored through a copy of it:
+// map, slice, pointer, channel, struct / unknown named type), "scalar", "func", "sync" (mutex, once), "opaque" (values whose
+// API is immutable or goroutine-safe: compiled regexps, error values).
+func c19VarKind(vs *ast.ValueSpec, idx int) string {
+	typeKind := func(t ast.Expr) string {
+		switch x := t.(type) {
+		case *ast.MapType, *ast.ArrayType, *ast.StarExpr, *ast.ChanType, *ast.InterfaceType, *ast.StructType:
+			return "ref"
+		case *ast.FuncType:
+			return "func"
+		case *ast.Ident:
+			switch x.Name {
+			case "string", "bool", "int", "int8", "int16", "int32", "int64", "uint", "uint8", "uint16", "uint32", "uint64", "uintptr", "float32", "float64", "byte", "rune", "error":
+				return "scalar"
+			}
+			return "ref"
+		case *ast.SelectorExpr:
+			switch src(x) {
+			case "sync.Mutex", "sync.RWMutex", "sync.Once", "sync.WaitGroup":
+				return "sync"
+			case "time.Duration":
+				return "scalar"
+			}
+			return "ref"
+		}
+		return "ref"
+	}
+	if vs.Type != nil {
+		return typeKind(vs.Type)
+	}
+	if idx < len(vs.Values) {
+		switch v := vs.Values[idx].(type) {
+		case *ast.BasicLit:
+			return "scalar"
+		case *ast.FuncLit:
+			return "func"
+		case *ast.CompositeLit:
+			if v.Type != nil {
+				return typeKind(v.Type)
+			}
+			return "ref"
+		case *ast.UnaryExpr:
+			return "ref"
+		case *ast.BinaryExpr, *ast.ParenExpr:
+			return "scalar"
+		case *ast.CallExpr:
+			switch src(v.Fun) {
+			case "regexp.MustCompile", "errors.New", "fmt.Errorf", "fmt.Sprintf", "strings.NewReplacer":
+				return "opaque"
+			case "make", "new":
+				return "ref"
+			}
+			if _, isConv := v.Fun.(*ast.ArrayType); isConv { // []byte("…")
+				return "ref"
+			}
+			return "ref"
+		case *ast.Ident:
+			if v.Name == "true" || v.Name == "false" {
+				return "scalar"
+			}
+		}
+	}
+	return "ref"
+}
+
 func genGlobals() (string, string) {
 	pkgs := loadPkgs()
 	byDir := map[string]*gPkg{}
@@ -432,6 +497,24 @@ func genGlobals() (string, string) {
 	var accesses []gAccess
 	type gReturn struct{ pkg, name, fn string }
 	var returns []gReturn
+	type gEscape struct{ pkg, name, fn, how string }
+	var escapes []gEscape
+	kindOf := func(dir, name string) string {
+		pk := byDir[dir]
+		if pk == nil {
+			return "ref"
+		}
+		vs := pk.vars[name]
+		if vs == nil {
+			return "ref"
+		}
+		for i, n := range vs.Names {
+			if n.Name == name {
+				return c19VarKind(vs, i)
+			}
+		}
+		return "ref"
+	}
 	edges := map[string]map[string]bool{}
 	addEdge := func(from, to string) {
 		if edges[from] == nil {
@@ -591,6 +674,21 @@ func genGlobals() (string, string) {
 				ast.Inspect(fd.Body, func(n ast.Node) bool {
 					switch x := n.(type) {
 					case *ast.AssignStmt:
+						if len(x.Lhs) == len(x.Rhs) {
+							for i, l := range x.Lhs {
+								if _, plainLocal := l.(*ast.Ident); plainLocal {
+									if id := l.(*ast.Ident); id.Obj != nil || id.Name == "_" {
+										continue // a local alias: tracked by `alias`
+									}
+								}
+								if dir, name, _ := targetOf(x.Rhs[i]); name != "" && kindOf(dir, name) == "ref" {
+									if ldir, lname, _, _ := globalOf(pk, f, l); lname == name && ldir == dir {
+										continue // G = G[…] / G = append(G, …) style self-assignment
+									}
+									escapes = append(escapes, gEscape{byDir[dir].name, name, writer, "store:" + src(l)})
+								}
+							}
+						}
 						if x.Tok != token.DEFINE {
 							for _, l := range x.Lhs {
 								kind := "assign"
@@ -612,6 +710,26 @@ func genGlobals() (string, string) {
 							if x.Value != nil {
 								record(x.Value, "assign", x.Pos())
 							}
+						}
+					case *ast.CompositeLit:
+						// a reference-typed package-level variable (or an alias) placed in a struct / map / slice value: whoever holds
+						// that value can store through it
+						for _, el := range x.Elts {
+							v := el
+							field := ""
+							if kv, ok := el.(*ast.KeyValueExpr); ok {
+								v = kv.Value
+								if k, ok := kv.Key.(*ast.Ident); ok {
+									field = "." + k.Name
+								}
+							}
+							if dir, name, _ := targetOf(v); name != "" && kindOf(dir, name) == "ref" {
+								escapes = append(escapes, gEscape{byDir[dir].name, name, writer, "literal:" + src(x.Type) + field})
+							}
+						}
+					case *ast.SendStmt:
+						if dir, name, _ := targetOf(x.Value); name != "" && kindOf(dir, name) == "ref" {
+							escapes = append(escapes, gEscape{byDir[dir].name, name, writer, "send"})
 						}
 					case *ast.ReturnStmt:
 						for _, r := range x.Results {
@@ -647,6 +765,16 @@ func genGlobals() (string, string) {
 						if stdMutators[src(x.Fun)] && len(x.Args) > 0 {
 							if dir, name, _ := targetOf(x.Args[0]); name != "" {
 								writes = append(writes, gWrite{pkg: dir, name: name, writer: writer, kind: "via-call:" + src(x.Fun), inInit: isInit, guarded: guardedAt(x.Pos())})
+							}
+						}
+						if callees, _ := calleesOf(pk, f, x); len(callees) == 0 {
+							// the address of a package-level variable handed to code outside the module (json.Unmarshal(&G), …)
+							for _, arg := range x.Args {
+								if u, ok := arg.(*ast.UnaryExpr); ok && u.Op == token.AND {
+									if dir, name, _ := targetOf(u.X); name != "" && kindOf(dir, name) != "sync" {
+										escapes = append(escapes, gEscape{byDir[dir].name, name, writer, "address-to:" + src(x.Fun)})
+									}
+								}
 							}
 						}
 						if id, ok := x.Fun.(*ast.Ident); ok && id.Obj == nil && len(x.Args) > 0 {
@@ -887,7 +1015,88 @@ func genGlobals() (string, string) {
 		}
 		fmt.Fprintf(&b, "  (%s, %s, %s)", leanStr(r.pkg), leanStr(r.name), leanStr(r.fn))
 	}
+	b.WriteString("]\n\n")
+	// reference-typed package-level variables that are copied somewhere a later store could go through
+	escSeen := map[gEscape]bool{}
+	var escs []gEscape
+	for _, e := range escapes {
+		if !escSeen[e] {
+			escSeen[e] = true
+			escs = append(escs, e)
+		}
+	}
+	sort.Slice(escs, func(i, j int) bool {
+		return escs[i].pkg+escs[i].name+escs[i].fn+escs[i].how < escs[j].pkg+escs[j].name+escs[j].fn+escs[j].how
+	})
+	b.WriteString("/-- reference-typed package-level variables (maps, slices, pointers, structs; or aliases of them) that are stored into a\n    field / element / other variable, placed in a composite literal, sent on a channel, or whose address is handed to code\n    outside the module: (package, variable, function, how) -/\n")
+	b.WriteString("def globalsEscaping : List (String × String × String × String) := [\n")
+	for i, e := range escs {
+		if i > 0 {
+			b.WriteString(",\n")
+		}
+		fmt.Fprintf(&b, "  (%s, %s, %s, %s)", leanStr(e.pkg), leanStr(e.name), leanStr(e.fn), leanStr(e.how))
+	}
+	b.WriteString("]\n\n")
+	// the fields the variables escaped into: every element store / delete anywhere in the module that goes through a field of that name
+	escFields := map[string]bool{}
+	for _, e := range escs {
+		if i := strings.LastIndexByte(e.how, '.'); i >= 0 && (strings.HasPrefix(e.how, "literal:") || strings.HasPrefix(e.how, "store:")) {
+			escFields[e.how[i+1:]] = true
+		}
+	}
+	type fStore struct{ field, fn, expr string }
+	var fstores []fStore
+	for _, fi := range allFuncs {
+		w := fi.pk.name + "." + funcKey(fi.fd)
+		through := func(e ast.Expr) {
+			t := src(e)
+			for fld := range escFields {
+				if strings.Contains(t, "."+fld+"[") {
+					fstores = append(fstores, fStore{fld, w, t})
+				}
+			}
+		}
+		ast.Inspect(fi.fd.Body, func(n ast.Node) bool {
+			switch x := n.(type) {
+			case *ast.AssignStmt:
+				if x.Tok != token.DEFINE {
+					for _, l := range x.Lhs {
+						through(l)
+					}
+				}
+			case *ast.IncDecStmt:
+				through(x.X)
+			case *ast.CallExpr:
+				if id, ok := x.Fun.(*ast.Ident); ok && id.Obj == nil && len(x.Args) > 0 && (id.Name == "delete" || id.Name == "clear") {
+					if t := src(x.Args[0]); true {
+						for fld := range escFields {
+							if strings.HasSuffix(t, "."+fld) {
+								fstores = append(fstores, fStore{fld, w, src(x)})
+							}
+						}
+					}
+				}
+			}
+			return true
+		})
+	}
+	sort.Slice(fstores, func(i, j int) bool { return fstores[i].fn+fstores[i].expr < fstores[j].fn+fstores[j].expr })
+	var fl []string
+	for k := range escFields {
+		fl = append(fl, k)
+	}
+	sort.Strings(fl)
+	fmt.Fprintf(&b, "/-- struct fields a package-level variable escaped into -/\ndef escapedIntoFields : List String := [%s]\n\n", joinLean(fl))
+	b.WriteString("/-- element stores / deletes anywhere in the module that go through a field of one of those names: (field, function, expression) -/\n")
+	b.WriteString("def storesThroughEscapedFields : List (String × String × String) := [\n")
+	for i, e := range fstores {
+		if i > 0 {
+			b.WriteString(",\n")
+		}
+		fmt.Fprintf(&b, "  (%s, %s, %s)", leanStr(e.field), leanStr(e.fn), leanStr(e.expr))
+	}
 	b.WriteString("]\n\nend CV.Gen\n")
+	fmt.Fprintf(logw, "globals: %d escapes of reference-typed package vars, %d stores through the fields they escaped into\n", len(escs), len(fstores))
 	fmt.Fprintf(logw, "globals: %d accesses of %d lock-guarded vars (%d unguarded), %d returns of globals, %d functions with mutated parameters\n", nAcc, len(gv), len(unguardedAcc), len(rets), len(mutParams))
 	fmt.Fprintf(logw, "globals: %d package vars, %d writes (%d outside init), %d caller-owned stores, %d reachable functions\n", nvars, len(writes), func() int {
 		c := 0
